@@ -7,6 +7,5 @@ CONSTANTS
   MaxDepth = 1000000
   Deviations <- @DEVIATIONS@
 CONSTRAINT Progress
-INVARIANT NonZero
 POSTCONDITION Accepted
 CHECK_DEADLOCK FALSE
